@@ -14,8 +14,8 @@
        ([respects]): what it leaves in the attributes it reads (they may be mutated in place)
        or assigns depends only on what it read; an attribute it assigns only on some paths is
        assigned or kept alike in two stores where it agreed; everything else is untouched.
-   (2) [covered]: boolean obligation -- run_prepare reads nothing but the persistent pair
-       (right_disp_map, step), the callbacks of the first trigger read only what run_prepare
+   (2) [covered]: boolean obligation -- run_prepare reads nothing but the persistent attribute
+       (step; right_disp_map is reassigned by run_prepare on every path), the callbacks of the first trigger read only what run_prepare
        or they themselves have assigned, every other callback reads only that.
    (3) shared dictionaries: a writer overwrites its keys and validates with the result.
 
@@ -39,8 +39,11 @@ Record shared := mkShared {
 Definition mem_s (x : string) (l : list string) : bool := existsb (String.eqb x) l.
 Definition subset_s (a b : list string) : bool := forallb (fun x => mem_s x b) a.
 
-(* the attributes whose value at the start of a run is NOT recomputed by the run *)
-Definition persist : list string := ["right_disp_map"; "step"].
+(* the attributes whose value at the start of a run is NOT recomputed by the run.
+   (right_disp_map was one of them until run_prepare got its `else: self.right_disp_map = None`:
+   it is now assigned on every path of run_prepare, which [covered] demands of the regenerated
+   frame: right_disp_map is read by every run callback, so it must be in [cb_must prep].) *)
+Definition persist : list string := ["step"].
 (* what pandora.run returns *)
 Definition products : list string := ["left_disparity"; "right_disparity"].
 
@@ -68,8 +71,8 @@ Definition covered (prep : cbinfo) (cbs : list cbinfo) (first skip : list string
   | None => false
   end.
 
-(* the run callbacks never assign the persistent pair, except run_prepare that may set
-   right_disp_map (from the configuration) *)
+(* the run callbacks never assign `step`; right_disp_map is assigned by run_prepare only
+   (from the configuration) *)
 Definition persist_only_prepared (prep : cbinfo) (cbs : list cbinfo) : bool :=
   negb (mem_s "step" (cb_may prep)) &&
   forallb (fun c => negb (mem_s "step" (cb_may c)) && negb (mem_s "right_disp_map" (cb_may c))) cbs.
@@ -170,7 +173,7 @@ Section Hist.
                 | Rejected m' => ((m', st), HRejected)
                 end
     | HRun => match run run_tbl m p n with
-              | RunOk m' tr => ((m', st), HRan tr (m_rdm m || has_kind Val p) st)
+              | RunOk m' tr => ((m', st), HRan tr (has_kind Val p) st)
               | RunError m' _ => ((m', st), HFailed)
               end
     end.
